@@ -456,3 +456,15 @@ Proof.
   intros Hn. unfold ctx_get. rewrite merge_lookup, (alookup_last_nodup _ _ Hn).
   destruct (alookup base k); reflexivity.
 Qed.
+
+(* ---------- two live engines do not influence each other ---------- *)
+Theorem engines_independent fuel cfgA : forall h cfgB st cacheB,
+  run2 fuel cfgA cfgB st cacheB h = run fuel cfgA st (only_A h).
+Proof.
+  induction h as [|[p new k|name caller|name caller|cfg'] h IH]; intros cfgB st cacheB; cbn [run2 only_A run].
+  - reflexivity.
+  - apply IH.
+  - destruct (render fuel cfgA (s_fs st) (s_cache st) name caller) as [c' out]. f_equal. apply IH.
+  - destruct (render fuel cfgB (s_fs st) cacheB name caller) as [cB' o]. apply IH.
+  - apply IH.
+Qed.
